@@ -64,7 +64,9 @@ TRx == IsEvent("rx") /\ Accept(Rx(s, Msg, [welcome |-> E.u.welcome, challenge |-
 TLost == IsEvent("lost") /\ Accept(Lost(s))
 TApi ==
   /\ IsEvent("api")
-  /\ Accept(CASE E.name = "call" -> Call(s, E.progress)
+  /\ Accept(CASE E.name \in {"call", "publish"} /\ E.bad # "" ->
+                   RequestFails(s, IF E.bad = "ser" THEN "SerializationError" ELSE "PayloadExceededError")
+              [] E.name = "call" -> Call(s, E.progress)
               [] E.name = "cancel" -> CancelCall(s, E.req)
               [] E.name = "publish" -> Publish(s, E.ack)
               [] E.name = "subscribe" -> Subscribe(s, E.h)
